@@ -4,7 +4,7 @@
 From Coq Require Import String.
 From Coq Require Import List NArith ZArith Bool Lia.
 From Dials Require Import Base.Outcome Base.Runes Reflect.Ty Stack.Overlay Text.ParseText
-  Sources.Flatten Sources.FlattenProofs Sources.Decoders Sources.DecodersSpec.
+  Sources.Flatten Sources.FlattenProofs Sources.TimeText Sources.Decoders Sources.DecodersSpec.
 Import ListNotations.
 Open Scope list_scope.
 
@@ -30,6 +30,13 @@ Proof. intros H. induction l; simpl; auto. now rewrite H, IHl. Qed.
 
 Lemma dec_kvs_ext f g l : (forall d, f d = g d) -> dec_kvs f l = dec_kvs g l.
 Proof. intros H. induction l as [|[k x] l IH]; simpl; auto. now rewrite H, IH. Qed.
+
+(* the lemmas about the generic decoder hold for either kind of library
+   (with or without a datetime token of its own) *)
+Section Lib.
+Variable nt : bool.
+Local Notation keyed_decode := (Decoders.keyed_decode nt).
+Local Notation keyed_fields := (Decoders.keyed_fields nt).
 
 Lemma keyed_slice nd key d e n :
   keyed_decode nd key d (TSlice e n) =
@@ -288,20 +295,22 @@ Proof.
   - simpl. now rewrite H, H0.
 Qed.
 
+End Lib.
+
 (* ---- decoders_agree ---- *)
 Theorem decoders_agree_l f d pfs :
   dec_ok pfs = true -> tags_wf f pfs = true -> decode f d pfs = spec_decode f d pfs.
 Proof.
   intros Hok Hwf. unfold decode, spec_decode, spec_fields, generic_fields. destruct d; auto.
-  destruct f; simpl translated; simpl lib_native_dur.
-  - rewrite (proj2 (tagcopy_decode_mut false FJson)).
-    + apply (proj2 (subst_decode_mut _)); auto.
+  destruct f; simpl translated; simpl lib_native_dur; simpl lib_native_time.
+  - rewrite (proj2 (tagcopy_decode_mut _ false FJson)).
+    + apply (proj2 (subst_decode_mut _ _)); auto.
     + now apply dec_ok_subst_mut.
     + now rewrite (proj2 (tags_wf_subst_mut FJson)).
-  - now apply (proj2 (tagcopy_decode_mut true FYaml)).
-  - now apply (proj2 (tagcopy_decode_mut true FToml)).
-  - rewrite (proj2 (tagcopy_decode_mut false FCue)).
-    + apply (proj2 (subst_decode_mut _)); auto.
+  - now apply (proj2 (tagcopy_decode_mut _ true FYaml)).
+  - now apply (proj2 (tagcopy_decode_mut _ true FToml)).
+  - rewrite (proj2 (tagcopy_decode_mut _ false FCue)).
+    + apply (proj2 (subst_decode_mut _ _)); auto.
     + now apply dec_ok_subst_mut.
     + now rewrite (proj2 (tags_wf_subst_mut FCue)).
 Qed.
@@ -326,18 +335,18 @@ Proof.
   destruct f; simpl fmt_tag; rewrite ?Ej, ?Ey, ?Et; reflexivity.
 Qed.
 
-Lemma spec_same_keys_mut nd f g :
-  (forall t, no_fmt_ty t = true -> forall d, keyed_decode nd (spec_key f) d t = keyed_decode nd (spec_key g) d t) /\
+Lemma spec_same_keys_mut nt nd f g :
+  (forall t, no_fmt_ty t = true -> forall d, keyed_decode nt nd (spec_key f) d t = keyed_decode nt nd (spec_key g) d t) /\
   (forall fs, no_fmt_fields fs = true ->
-              forall kvs, keyed_fields nd (spec_key f) kvs fs = keyed_fields nd (spec_key g) kvs fs).
+              forall kvs, keyed_fields nt nd (spec_key f) kvs fs = keyed_fields nt nd (spec_key g) kvs fs).
 Proof.
   apply ty_fields_ind; intros; cbv beta in *; try reflexivity.
   - rewrite !keyed_ptr, H; auto.
   - rewrite !keyed_slice. destruct (netip t name); auto. destruct d; auto.
-    rewrite (dec_list_ext _ (fun x => keyed_decode nd (spec_key g) x t)); auto.
+    rewrite (dec_list_ext _ (fun x => keyed_decode nt nd (spec_key g) x t)); auto.
   - destruct k; try reflexivity. destruct k; try reflexivity.
     rewrite !keyed_map. destruct d; auto.
-    rewrite (dec_kvs_ext _ (fun x => keyed_decode nd (spec_key g) x v)); auto.
+    rewrite (dec_kvs_ext _ (fun x => keyed_decode nt nd (spec_key g) x v)); auto.
   - rewrite !keyed_struct. destruct d; auto. simpl in H0. now rewrite H.
   - simpl in H1. apply andb_true_iff in H1 as [H1 Hr]. apply andb_true_iff in H1 as [Hn Ht].
     simpl. rewrite !spec_key_no_fmt, H0 by assumption.
@@ -362,22 +371,92 @@ Proof.
   now rewrite H, H0, (no_fmt_tag_wf f f_tags Hn).
 Qed.
 
-(* same data, same config: without format-specific tags all four decoders
-   return the outcome of the generic decoder keyed by the dials tags *)
-Theorem decoders_agree_all_l f g d pfs :
-  dec_ok pfs = true -> no_fmt_fields pfs = true -> decode f d pfs = decode g d pfs.
+(* ---- the two kinds of library (datetime token or not) differ only where a
+   string meets a time.Time leaf ---- *)
+Lemma dec_list_ext_in f g l : (forall d, In d l -> f d = g d) -> dec_list f l = dec_list g l.
 Proof.
-  intros Hok Hnf.
+  induction l; simpl; intros H; auto. rewrite (H a), IHl; auto.
+Qed.
+
+Lemma dec_kvs_ext_in f g l : (forall k d, In (k, d) l -> f d = g d) -> dec_kvs f l = dec_kvs g l.
+Proof.
+  induction l as [|[k x] l IH]; simpl; intros H; auto. rewrite (H k x), IH; auto.
+  intros k' d' Hin. apply (H k'). now right.
+Qed.
+
+Lemma doc_lookup_in k kvs d : doc_lookup k kvs = Some d -> exists k', In (k', d) kvs.
+Proof.
+  induction kvs as [|[k0 d0] r IH]; simpl; [discriminate|].
+  destruct (str_eqb k k0).
+  - intros H. inversion H; subst. exists k0. now left.
+  - intros H. destruct (IH H) as [k' Hin]. exists k'. now right.
+Qed.
+
+Lemma nt_free_mut nd key nt1 nt2 :
+  (forall t, time_free_ty t = true -> forall d, keyed_decode nt1 nd key d t = keyed_decode nt2 nd key d t) /\
+  (forall fs, time_free fs = true -> forall kvs, keyed_fields nt1 nd key kvs fs = keyed_fields nt2 nd key kvs fs).
+Proof.
+  apply ty_fields_ind; intros; cbv beta in *; try reflexivity.
+  - destruct ptr_recv; try reflexivity. simpl in H. simpl.
+    destruct (str_eqb id time_name); [discriminate|reflexivity].
+  - rewrite !keyed_ptr, H; auto.
+  - rewrite !keyed_slice. destruct (netip t name); auto. destruct d; auto.
+    rewrite (dec_list_ext _ (fun x => keyed_decode nt2 nd key x t)); auto.
+  - destruct k; try reflexivity. destruct k; try reflexivity.
+    rewrite !keyed_map. destruct d; auto.
+    rewrite (dec_kvs_ext _ (fun x => keyed_decode nt2 nd key x v)); auto.
+  - rewrite !keyed_struct. destruct d; auto. simpl in H0. now rewrite H.
+  - simpl in H1. apply andb_true_iff in H1 as [Ht Hr]. simpl. rewrite H0 by assumption.
+    destruct (doc_lookup _ kvs); auto. now rewrite H.
+Qed.
+
+Lemma nt_marked_mut nd key nt1 nt2 :
+  (forall t d, no_time_str d = true -> keyed_decode nt1 nd key d t = keyed_decode nt2 nd key d t) /\
+  (forall fs kvs, forallb (fun kv => no_time_str (snd kv)) kvs = true ->
+                  keyed_fields nt1 nd key kvs fs = keyed_fields nt2 nd key kvs fs).
+Proof.
+  apply ty_fields_ind; intros; cbv beta in *; try reflexivity.
+  - destruct ptr_recv; try reflexivity. simpl.
+    destruct (str_eqb id time_name); [|reflexivity].
+    destruct d; try reflexivity. simpl in H. unfold decode_time, time_value.
+    destruct (rfc3339 s); [discriminate|]. destruct nt1, nt2; reflexivity.
+  - rewrite !keyed_ptr, H; auto.
+  - rewrite !keyed_slice. destruct (netip t name); auto. destruct d; auto.
+    simpl in H0. rewrite forallb_forall in H0.
+    rewrite (dec_list_ext_in _ (fun x => keyed_decode nt2 nd key x t)); auto.
+  - destruct k; try reflexivity. destruct k; try reflexivity.
+    rewrite !keyed_map. destruct d; auto.
+    simpl in H1. rewrite forallb_forall in H1.
+    rewrite (dec_kvs_ext_in _ (fun x => keyed_decode nt2 nd key x v)); auto.
+    intros k' d' Hin. apply H0. apply in_rev in Hin. exact (H1 _ Hin).
+  - rewrite !keyed_struct. destruct d; auto. simpl in H0. now rewrite H.
+  - simpl. rewrite H0 by assumption.
+    destruct (doc_lookup _ kvs) eqn:El; auto. rewrite H; auto.
+    destruct (doc_lookup_in _ _ _ El) as [k' Hin]. rewrite forallb_forall in H1. exact (H1 _ Hin).
+Qed.
+
+(* same data, same config: without format-specific tags all four decoders
+   return the outcome of the generic decoder keyed by the dials tags - on every
+   document tree whose timestamps are written as timestamps *)
+Theorem decoders_agree_all_l f g d pfs :
+  dec_ok pfs = true -> no_fmt_fields pfs = true ->
+  time_free pfs = true \/ no_time_str d = true ->
+  decode f d pfs = decode g d pfs.
+Proof.
+  intros Hok Hnf Ht.
   rewrite !decoders_agree_l by (auto; now apply no_fmt_tags_wf_mut).
   unfold spec_decode, spec_fields. destruct d; auto.
-  now apply (proj2 (spec_same_keys_mut true f g)).
+  rewrite (proj2 (spec_same_keys_mut (lib_native_time f) true f g)) by assumption.
+  destruct Ht as [Ht|Ht].
+  - now apply (proj2 (nt_free_mut _ _ _ _)).
+  - now apply (proj2 (nt_marked_mut _ _ _ _)).
 Qed.
 
 (* ---- characterisation of a struct decode: field by field ---- *)
-Lemma keyed_fields_char nd key kvs fs vs :
-  keyed_fields nd key kvs fs = Ok vs <->
+Lemma keyed_fields_char nt nd key kvs fs vs :
+  keyed_fields nt nd key kvs fs = Ok vs <->
   Forall2 (fun fld v => match doc_lookup (key (fst (fst fld)) (snd (fst fld))) kvs with
-                        | Some d => keyed_decode nd key d (snd fld) = Ok v
+                        | Some d => keyed_decode nt nd key d (snd fld) = Ok v
                         | None => v = zero (snd fld)
                         end) (fields_list fs) vs.
 Proof.
@@ -427,8 +506,20 @@ Definition dur_leaf_seen (f : format) : ty :=
   match f with FJson | FCue => subst_ty dur_leaf | FYaml | FToml => dur_leaf end.
 
 Theorem duration_forms_l (f : format) (key : str -> list (str * str) -> str) :
-  (forall s, keyed_decode (lib_native_dur f) key (DStr s) (dur_leaf_seen f) =
+  (forall s, keyed_decode (lib_native_time f) (lib_native_dur f) key (DStr s) (dur_leaf_seen f) =
              omap VPtr (omap VInt (parse_duration s))) /\
-  (forall z, keyed_decode (lib_native_dur f) key (DInt z) (dur_leaf_seen f) =
+  (forall z, keyed_decode (lib_native_time f) (lib_native_dur f) key (DInt z) (dur_leaf_seen f) =
              omap VPtr (decode_int 64 z)).
 Proof. destruct f; split; intros; reflexivity. Qed.
+
+(* ---- timestamps ---- *)
+Definition time_leaf : ty := TPtr (TTextU time_name true).
+
+(* a timestamp the way format f writes one *)
+Definition own_time (f : format) (s : str) : doc := if lib_native_time f then DTime s else DStr s.
+
+Theorem time_forms_l (f : format) (key : str -> list (str * str) -> str) (s : str) :
+  subst_ty time_leaf = time_leaf /\
+  keyed_decode (lib_native_time f) (lib_native_dur f) key (own_time f s) time_leaf = omap VPtr (time_value s) /\
+  keyed_decode (lib_native_time f) (lib_native_dur f) key (DTime s) time_leaf = omap VPtr (time_value s).
+Proof. destruct f; repeat split; reflexivity. Qed.
